@@ -284,6 +284,15 @@ async fn exec_inner(world: Arc<World>, c: usize, spec: CallSpec) -> (String, Val
             }
         }
         CallSpec::Publish { topic, msgs } => {
+            // `bulk:N` stands for N small distinguishable messages in one request.
+            let msgs = match msgs.as_slice() {
+                [one] if one.p.starts_with("bulk:") => {
+                    let n = one.p[5..].parse::<usize>().unwrap_or(1);
+                    (0..n).map(|i| MsgSpec { p: format!("k{}", i) }).collect::<Vec<_>>()
+                }
+                _ => msgs,
+            };
+            let light = deltio::verif::light();
             let messages = msgs
                 .iter()
                 .map(|m| {
@@ -293,14 +302,15 @@ async fn exec_inner(world: Arc<World>, c: usize, spec: CallSpec) -> (String, Val
                 .collect::<Vec<_>>();
             world.ev(
                 "inv",
-                json!({"c": c, "op": "Publish", "topic": topic,
-                       "msgs": messages.iter().map(|m| json!({"data": digest(&m.data), "attrs": attrs_list(&m.attributes)})).collect::<Vec<_>>()}),
+                json!({"c": c, "op": "Publish", "topic": topic, "n": messages.len(),
+                       "msgs": messages.iter().take(if light { 3 } else { usize::MAX })
+                           .map(|m| json!({"data": digest(&m.data), "attrs": attrs_list(&m.attributes)})).collect::<Vec<_>>()}),
             );
             match publisher.publish(PublishRequest { topic, messages }).await {
                 Ok(r) => (
                     "OK".into(),
-                    json!({"ids": r.get_ref().message_ids.iter().map(|i| split_id(i)).collect::<Vec<_>>(),
-                           "raw": r.get_ref().message_ids}),
+                    json!({"ids": r.get_ref().message_ids.iter().take(if light { 3 } else { usize::MAX }).map(|i| split_id(i)).collect::<Vec<_>>(),
+                           "n": r.get_ref().message_ids.len()}),
                 ),
                 Err(s) => status_ret(&s),
             }
